@@ -283,8 +283,10 @@ def check_stream_end(rep, rid, core):
         for s2 in f.succ(sb):
             r = f.reachable([s2])
             outs.append((bool(set(N) & r), bool(set(P) & r)))
-        if len(set(outs)) < 2:
-            continue  # does not influence the outcome
+        # the switch decides between stream end and Pending only if one successor can reach Ready(None) and a *different* successor can
+        # reach Pending (an arm that reaches neither — it returns an item — does not take part in that decision)
+        if not any(a[0] and b[1] for i, a in enumerate(outs) for j, b in enumerate(outs) if i != j):
+            continue
         n_dec += 1
         srcs = origins(f, st['a'])
         for o in srcs:
